@@ -51,9 +51,28 @@ pub fn i2f(x: i128) -> f64 {
     f64::from_bits(x as u64)
 }
 
+/// the site and message of the last panic (recorded by the panic hook); reported for lines whose
+/// operation is prefixed by `@`, as `... -7 <line> <n> <n bytes of file> <m> <m bytes of message>`
+static LAST_PANIC: std::sync::Mutex<Option<(String, u32, String)>> = std::sync::Mutex::new(None);
+
 fn main() {
     pyo3::prepare_freethreaded_python();
-    std::panic::set_hook(Box::new(|_| {}));
+    std::panic::set_hook(Box::new(|info| {
+        let (file, line) = info
+            .location()
+            .map(|l| (l.file().to_string(), l.line()))
+            .unwrap_or((String::new(), 0));
+        let msg = if let Some(s) = info.payload().downcast_ref::<&str>() {
+            s.to_string()
+        } else if let Some(s) = info.payload().downcast_ref::<String>() {
+            s.clone()
+        } else {
+            String::new()
+        };
+        if let Ok(mut g) = LAST_PANIC.lock() {
+            *g = Some((file, line, msg));
+        }
+    }));
     let args: Vec<String> = std::env::args().collect();
     let domain = args.get(1).map(|s| s.as_str()).unwrap_or("");
     let stdin = io::stdin();
@@ -62,10 +81,17 @@ fn main() {
     for line in stdin.lock().lines() {
         let line = line.unwrap();
         let mut it = line.split_whitespace();
-        let op = match it.next() {
+        let mut op = match it.next() {
             Some(o) => o.to_string(),
             None => continue,
         };
+        let want_site = op.starts_with('@');
+        if want_site {
+            op = op[1..].to_string();
+            if let Ok(mut g) = LAST_PANIC.lock() {
+                *g = None;
+            }
+        }
         let a: Ints = it.map(|t| t.parse::<i128>().expect("int")).collect();
         let res: Ints = match catch_unwind(AssertUnwindSafe(|| match domain {
             "dates" => dates::run(&op, &a),
@@ -82,6 +108,20 @@ fn main() {
             Ok(v) => v,
             Err(_) => vec![2],
         };
+        let mut res = res;
+        if want_site {
+            if let Ok(g) = LAST_PANIC.lock() {
+                if let Some((file, line, msg)) = g.as_ref() {
+                    res.push(-7);
+                    res.push(*line as i128);
+                    res.push(file.len() as i128);
+                    res.extend(file.bytes().map(|b| b as i128));
+                    let m: Vec<u8> = msg.bytes().take(200).collect();
+                    res.push(m.len() as i128);
+                    res.extend(m.iter().map(|b| *b as i128));
+                }
+            }
+        }
         let s: Vec<String> = res.iter().map(|x| x.to_string()).collect();
         writeln!(out, "{}", s.join(" ")).unwrap();
     }
